@@ -101,8 +101,19 @@ def families():
     return qs
 
 
+class EffectsQ:
+    """effects mode over the open path (memory.rs map_mut_in / map_in and their closures), memmap-feature MIR"""
+    name, props, tier, kind, timeout, selftest = "effects_open_path", ["C09"], "quick", "effects", 600, False
+
+    def bounds(self):
+        return ("all paths of map_mut_in / map_in and their closures (no loops in them), callees outside the crate opaque, "
+                "sanity_check / write_sanity summarised (decided by Engine K), cleanup (unwinding) paths not followed")
+
+
 def select(pid, tier, only=None):
     out = []
+    if pid == "C09" and (not only or only in EffectsQ.name):
+        out.append(EffectsQ())
     for q in families():
         if pid not in q.props:
             continue
@@ -243,6 +254,12 @@ def run(pid, tier, queries, scratch, logdir, known):
     rc = os.path.join(scratch, "repo")
     if not os.path.isdir(rc):
         rc = C.copy_repo(scratch)
+    effq = [q for q in queries if q.kind == "effects"]
+    queries = [q for q in queries if q.kind != "effects"]
+    for q in effq:
+        run_effects(q, pid, rc, scratch, logdir, known, out)
+    if not queries:
+        return out
     mir, t_mir = dump_mir(rc, logdir)
     if mir is None:
         out["inconclusive"].append("MIR dump of the current tree failed (see mir.err)")
@@ -388,6 +405,79 @@ def run(pid, tier, queries, scratch, logdir, known):
     return out
 
 
+def run_effects(q, pid, rc, scratch, logdir, known, out):
+    crate = os.path.join(rc, C.CRATE)
+    env = C.base_env()
+    env["CARGO_TARGET_DIR"] = os.path.join(scratch, "t.mirmm")
+    t0 = time.time()
+    p = subprocess.run(["cargo", "+nightly", "rustc", "--offline", "--lib", "--features", "memmap", "--", "-Zunpretty=mir", "-C", "debug-assertions=off",
+                        "-C", "overflow-checks=on"], cwd=crate, env=env, stdout=subprocess.PIPE, stderr=subprocess.PIPE, text=True)
+    shutil.rmtree(env["CARGO_TARGET_DIR"], ignore_errors=True)
+    sample = {"engine": "M", "query": q.name, "kind": "effects", "bounds": q.bounds()}
+    out["evaluations"] += 1
+    if p.returncode != 0 or "fn " not in p.stdout:
+        out["inconclusive"].append("%s: MIR dump (memmap feature) of the current tree failed" % q.name)
+        sample["verdict"] = "inconclusive"
+        out["samples"].append(sample)
+        return
+    mirp = os.path.join(scratch, "mir_mm.txt")
+    with open(mirp, "w") as f:
+        f.write(p.stdout)
+    op = os.path.join(logdir, "out_effects.json")
+    shell = "ulimit -v %d; exec timeout -k 10 %d %s -m mirsmt.effects %s %s %s" % (8 * 1024 * 1024, q.timeout, PY, mirp, os.path.join(crate, "src"), op)
+    subprocess.run(["bash", "-c", shell], cwd=C.VERIF, env=C.base_env(), stdout=subprocess.PIPE, stderr=subprocess.STDOUT, text=True)
+    try:
+        r = json.load(open(op))
+    except Exception:
+        r = {"error": "effects worker died", "obligations": []}
+    sample["wall_s"] = round(time.time() - t0, 1)
+    sample["obligations"] = [{k: o.get(k) for k in ("id", "text", "holds", "paths", "ok_paths", "panic_paths_not_followed", "function", "witnesses")} for o in r.get("obligations", [])]
+    out["functions"] = sorted(set(out.get("functions", [])) | set(o.get("function", "") for o in r.get("obligations", [])))
+    if r.get("error") or len(r.get("obligations", [])) < 3:
+        sample["verdict"] = "inconclusive"
+        out["inconclusive"].append("%s: %s" % (q.name, r.get("error") or "obligations missing"))
+        out["samples"].append(sample)
+        return
+    out["evaluations"] += sum(o.get("paths", 0) for o in r["obligations"])
+    failed = [o for o in r["obligations"] if not o["holds"]]
+    vac = [o["id"] for o in r["obligations"] if o.get("ok_paths", 0) == 0]
+    if not failed:
+        if vac:
+            sample["verdict"] = "inconclusive"
+            out["inconclusive"].append("%s: no accepting path explored for %s (vacuous)" % (q.name, vac))
+        else:
+            sample["verdict"] = "pass"
+            out["nontrivial"] += 1
+        out["samples"].append(sample)
+        return
+    # native confirmation: concrete files for each obligation against the real crate
+    binary = build_replay(rc, logdir)
+    if not binary:
+        sample["verdict"] = "inconclusive"
+        out["inconclusive"].append("%s: replay harness does not build against this tree" % q.name)
+        out["samples"].append(sample)
+        return
+    d = os.path.join(scratch, "opencheck")
+    os.makedirs(d, exist_ok=True)
+    pr = subprocess.run([binary, "--open-check", d], stdout=subprocess.PIPE, stderr=subprocess.STDOUT, text=True)
+    native = [l for l in pr.stdout.split("\n") if l.startswith("NATIVE")]
+    sample["replay"] = {"exit": pr.returncode, "output": native}
+    confirmed = [o for o in failed if any(("%s violated" % o["id"]) in l for l in native)]
+    if not confirmed:
+        sample["verdict"] = "non-reproducing"
+        out["inconclusive"].append("%s: obligation %s fails on the explored paths but the native experiment does not show it" % (q.name, [o["id"] for o in failed]))
+        out["samples"].append(sample)
+        return
+    desc = "; ".join("%s: %s" % (o["id"], o["text"]) for o in confirmed)
+    os.makedirs(C.REPLAY_DIR, exist_ok=True)
+    rp = os.path.join(C.REPLAY_DIR, "%s-M-%s.json" % (pid, q.name))
+    with open(rp, "w") as f:
+        json.dump({"engine": "M", "property": pid, "query": q.name, "mode": "open-check", "what": desc, "obligations": confirmed, "native": native}, f, indent=1)
+    out["violations"].append((q.name, rp, desc))
+    sample["verdict"] = "fail"
+    out["samples"].append(sample)
+
+
 def replay_from_file(path):
     rec = json.load(open(path))
     scratch = C.make_scratch("replayM")
@@ -398,6 +488,13 @@ def replay_from_file(path):
     if not binary:
         print("replay harness does not build against this tree")
         return False
+    if rec.get("mode") == "open-check":
+        d = os.path.join(scratch, "opencheck")
+        os.makedirs(d, exist_ok=True)
+        pr = subprocess.run([binary, "--open-check", d], stdout=subprocess.PIPE, stderr=subprocess.STDOUT, text=True)
+        print(pr.stdout)
+        print("replay: %s" % ("still fails" if pr.returncode == 1 else "passes"))
+        return pr.returncode == 1
     inp = os.path.join(scratch, "in.txt")
     replay_input(rec["cex"], inp, file_path=os.path.join(scratch, "crash.arena"))
     rcode, out = run_replay(binary, inp)
